@@ -61,8 +61,15 @@ def check(rep, prog):
         return [c]
     inloop = [b for b in F.nodes(kind='branch') if b.id in F.reach(c.id) and c.id in F.reach(b.id)]
     okb = False
-    for b in inloop:
-        for t in conj(b.stmt[1]):
+    # the tests that decide the loop: its branch conditions, and what is assigned inside the loop to a flag those conditions read
+    flagvars = {x for b in inloop for x in ir.subexprs(b.stmt[1]) if x[0] == 'var'}
+    tests = [(b, F.resolve_flags(b.stmt[1])) for b in inloop]
+    tests += [(n, n.stmt[2]) for n in F.nodes(kind='assign') if n.stmt[1] in flagvars and n.id in F.reach(c.id) and c.id in F.reach(n.id)
+              and n.stmt[2][0] == 'op']
+    for b, cond_ in tests:
+        for t in conj(cond_):
+            if _is(t, 'op', 'not'):
+                t = t[2]
             if not (_is(t, 'op') and t[1] in ('<', '<=', '>', '>=') and len(t) == 4):
                 continue
             for cnt, lim in ((t[2], t[3]), (t[3], t[2])):
